@@ -223,6 +223,7 @@ pub fn on_state(
     st: &HState,
     scratch: &Scratch,
     deep: bool,
+    deep_all_subsets: bool,
     counters: &Counters,
 ) -> Vec<(Violation, Value)> {
     let mut out = Vec::new();
@@ -238,6 +239,11 @@ pub fn on_state(
             }
             let _ = std::fs::remove_dir_all(&dir);
             if dry || !deep {
+                continue;
+            }
+            // (quick tier on non-seed states: crash/fault enumeration for pure gc, a single
+            // version and all versions only)
+            if !deep_all_subsets && !(sub.is_empty() || sub.len() == 1 || sub.len() == ids.len()) {
                 continue;
             }
             // E2 on this run's trace.
@@ -319,11 +325,11 @@ pub struct Counters {
 
 pub fn run(report: &Report, budget: &Budget) {
     let thorough = report.thorough();
-    let (depth, deep_depth) = if thorough { (2, 1) } else { (1, 0) };
+    let (depth, deep_depth) = if thorough { (2, 1) } else { (1, 1) };
     let counters = Counters::default();
     let noop = |_: &Transition| Vec::new();
     let f = |st: &HState, scratch: &Scratch, _srcs: &SrcCache| -> Vec<(Violation, Value)> {
-        on_state(st, scratch, st.depth <= deep_depth, &counters)
+        on_state(st, scratch, st.depth <= deep_depth, thorough || st.depth == 0, &counters)
     };
     let st = hist::explore(report, budget, "C05", depth, thorough, false, thorough, &noop, Some(&f), None);
     hist::write_stats(report, &st, depth);
